@@ -60,6 +60,16 @@ Definition common_suite (a : acfg) : bool :=
   existsb (fun id => existsb (N.eqb id) (configured gm (a_ssuites a)) && suite_usable gm (cli_vers a) id)
           (configured gm (a_csuites a)).
 
+(* suite preference: the negotiated suite is the first entry of the preferring side's list (the server's with
+   PreferServerCipherSuites, else the client's) that the other side lists and that is usable *)
+Definition pref_list (a : acfg) : list N :=
+  configured (fam_gm a) (if a_prefer a then a_ssuites a else a_csuites a).
+Definition other_list (a : acfg) : list N :=
+  configured (fam_gm a) (if a_prefer a then a_csuites a else a_ssuites a).
+Definition acceptable (a : acfg) (id : N) : bool :=
+  existsb (N.eqb id) (other_list a) && suite_usable (fam_gm a) (cli_vers a) id.
+Definition expected_suite (a : acfg) : option N := find (acceptable a) (pref_list a).
+
 (* ClientAuth: require-any and require-and-verify need a certificate; verify-if-given and
    require-and-verify reject a presented certificate that does not chain to a CA of ClientCAs: the one with
    the forged issuer, and any certificate when the pool is empty *)
@@ -88,7 +98,7 @@ Definition client_suite_lists : list (option (list N)) :=
   [None; Some [0xe013]; Some [0xe053]; Some [0xe053; 0xe013]; Some [0xe011; 0xe051]; Some [0xe011; 0xe013];
    Some [0x002f]; Some [0xc02f; 0x009c]; Some [0xc02b]; Some [0x009c]; Some [0xc013; 0x002f]].
 Definition server_suite_lists : list (option (list N)) :=
-  [None; Some [0xe013]; Some [0xe013; 0xe053]; Some [0x002f; 0xc02f]; Some [0x009c]; Some [0xe011]].
+  [None; Some [0xe013]; Some [0xe013; 0xe053]; Some [0x002f; 0xc02f]; Some [0x009c]; Some [0xe011]; Some [0x009c; 0xc02f]].
 Definition all_auth : list N := [0; 1; 2; 3; 4].
 Definition all_ccert : list N := [0; 1; 2].
 Definition bools : list bool := [false; true].
@@ -151,6 +161,7 @@ Definition agree_check (a : acfg) : bool :=
     && term_eqb (res_ms rc) (res_ms rs) && term_eqb (res_ekm rc) (res_ekm rs) && term_eqb (res_keys rc) (res_keys rs)
     && listN_eqb (res_peer rc) (expected_server_certs a) && listN_eqb (res_peer rs) (expected_client_certs a)
     && reconnect_ok a rc
+    && match expected_suite a with Some s => N.eqb s (res_suite rc) | None => false end
   | (Errored, Errored) => negb (policy_allows a)
   | _ => false
   end.
